@@ -21,7 +21,7 @@ ASSUMPTIONS = ['"recognised page": every line has baseline (2 px .. block width,
                'ALTO TextLine elements carry no id: lines are matched by order within their block']
 N = {'quick': 800, 'thorough': 40000}
 CLASSES = ['page', 'page', 'page_whitespace', 'page_arabic', 'page_conf', 'order_conversion', 'page_short_lines', 'page_long_lines']
-REQUIRED = ['arabic_lines_in_presentation_forms_only', 'decomposed_lines', 'lines_with_an_outline_without_extent', 'aligned_lines_over_1000_frames', 'aligned_lines_with_offset_window', 'astral_lines', 'entity_like_lines', 'short_baseline_lines', 'exports', 'lines_expected', 'aligned_lines', 'fallback_lines', 'words_compared', 'nonascii_space_lines', 'arabic_lines', 'arabic_fallback_lines', 'dropped_lines',
+REQUIRED = ['pages_with_a_reading_order_other_than_the_held_order', 'blocks_with_line_indices_other_than_the_held_order', 'arabic_lines_in_presentation_forms_only', 'decomposed_lines', 'lines_with_an_outline_without_extent', 'aligned_lines_over_1000_frames', 'aligned_lines_with_offset_window', 'astral_lines', 'entity_like_lines', 'short_baseline_lines', 'exports', 'lines_expected', 'aligned_lines', 'fallback_lines', 'words_compared', 'nonascii_space_lines', 'arabic_lines', 'arabic_fallback_lines', 'dropped_lines',
             'printspace_checked', 'reimports', 'conversions_checked']
 NS = '{http://www.loc.gov/standards/alto/ns-v2#}'
 CH = list("abcdefgh.,-") + [' '] + list('ابتثج')
@@ -154,7 +154,16 @@ def gen(rng, i, ctx):
                           'pad': pad})
         blocks.append({'id': 'r%d' % r, 'polygon': poly, 'lines': lines})
     mlc = float(rng.choice([0, 0.3, 0.99])) if cls == 'page_conf' or rng.random() < 0.3 else 0.0
-    return {'cls': cls, 'size': [H, W], 'blocks': blocks, 'min_line_confidence': mlc}
+    case = {'cls': cls, 'size': [H, W], 'blocks': blocks, 'min_line_confidence': mlc}
+    # drawn last (round 7): a reading order assigned to the page after it was built, disagreeing with the order in which the page holds its regions;
+    # PAGE-style line indices on every line of a block, disagreeing with the order in which the block holds its lines
+    if rng.random() < 0.3 and len(blocks) >= 2:
+        perm = [int(x) for x in rng.permutation(len(blocks))]
+        case['reading_order'] = {blocks[k]['id']: n for n, k in enumerate(perm)}
+    if rng.random() < 0.3:
+        case['line_index'] = str(rng.choice(['reversed', 'shuffled', 'consistent', 'equal']))
+        case['line_index_seed'] = int(rng.integers(0, 1 << 30))
+    return case
 
 
 def describe(case):
@@ -183,7 +192,15 @@ def build(L, case):
                     tl.logits = sparse.csc_matrix(np.concatenate([rows[:p0], dense, rows[p0:]], 0))
                     tl.logit_coords = [p0, p0 + T]
             reg.lines.append(tl)
+        if case.get('line_index'):
+            n = len(reg.lines)
+            idx = {'reversed': list(range(n))[::-1], 'consistent': list(range(n)), 'equal': [0] * n,
+                   'shuffled': [int(x) for x in np.random.default_rng(case['line_index_seed']).permutation(n)]}[case['line_index']]
+            for tl, k in zip(reg.lines, idx):
+                tl.index = k
         pl.regions.append(reg)
+    if case.get('reading_order'):
+        pl.reading_order = dict(case['reading_order'])
     return pl
 
 
@@ -220,6 +237,12 @@ def check(case, mon, ctx):
         mon.violation('export-never-fails', {'exception': repr(e)[:200], 'at': '%s:%s %s' % (where.filename.split('/')[-1], where.lineno, (where.line or '')[:80])})
         return
     mon.count('exports')
+    if case.get('reading_order'):
+        mon.count('pages_with_a_reading_order_other_than_the_held_order')
+    if case.get('line_index') in ('reversed', 'shuffled'):
+        mon.count('blocks_with_line_indices_other_than_the_held_order')
+    if [r.id for r in pl.regions] != [b['id'] for b in case['blocks']] or any([l.id for l in r.lines] != [l['id'] for l in b['lines']] for r, b in zip(pl.regions, case['blocks'])):
+        mon.violation('blocks-in-layout-order', {'note': 'the export re-ordered the regions / lines of the page object it was given', 'regions_after_export': [r.id for r in pl.regions]})
     # which lines took the aligned branch: align_text returned (recorder), in call order = order of exported candidate lines
     cand = [(b, l) for b in case['blocks'] for l in b['lines'] if l['text'] and l['text'].strip() != '']
     if any(len(l['text'].split()) > 1 for _, l in cand):
